@@ -338,6 +338,17 @@ func formRun(dir string, idx int, defs []fieldDef, c formCase, put func(formReco
 	rec.Post = normStates(st)
 	put(rec)
 	for k, op := range c.Ops {
+		// "refill" and "same" are defined on the current document (FormsModel!ExportOp): instantiate them with the real state
+		if op.Kind == "refill" || op.Kind == "same" {
+			fs := make([]fieldOp, len(defs))
+			for i, s := range st {
+				fs[i] = fieldOp{Present: true, Val: s.Val, Lock: s.Locked}
+				if op.Kind == "same" && defs[i].Name == c.Focus {
+					fs[i].Lock = !s.Locked
+				}
+			}
+			op.Fields = fs
+		}
 		fj := filepath.Join(dir, fmt.Sprintf("fill%d.json", k+1))
 		if err := os.WriteFile(fj, fillJSON(doc, defs, op.Fields), 0644); err != nil {
 			return err
